@@ -1,5 +1,5 @@
 #!/venv/bin/python
-"""Runs every quick check against every stored seeded change (scratch worktree + VERIF_REPO) and
+"""Runs the quick checks (default: the seed's own property check and the checks that caught it before; --full: all 20) against every stored seeded change (scratch worktree + VERIF_REPO) and
 writes seeded/MATRIX.md and seeded/matrix.json.  usage: tools/matrix.py [seed-name-substring] [checks,comma]"""
 import json
 import os
@@ -17,8 +17,11 @@ def sh(cmd):
 
 
 def main():
-    only = sys.argv[1] if len(sys.argv) > 1 else ''
-    checks = sys.argv[2].split(',') if len(sys.argv) > 2 else ['C%02d' % i for i in range(1, 21)]
+    args = [a for a in sys.argv[1:] if a != '--full']
+    full = '--full' in sys.argv
+    only = args[0] if args else ''
+    allchecks = ['C%02d' % i for i in range(1, 21)]
+    checks = args[1].split(',') if len(args) > 1 else allchecks
     seeds = sorted(d for d in os.listdir(os.path.join(VERIF, 'seeded')) if os.path.isdir(os.path.join(VERIF, 'seeded', d)) and only in d)
     res = {}
     mp = os.path.join(OUT, 'matrix.json')
@@ -42,7 +45,18 @@ def main():
             res.setdefault(name, {})['_tests'] = r.stdout.strip()
             r = sh('cd %s && cp %s/seeded/%s/demo.py . && env -u YLDPROLOG_VERIF PYTHONPATH=%s/src /venv/bin/python demo.py >/dev/null 2>&1; echo $?' % (wt, VERIF, name, wt))
             res[name]['_demo_exit_with_change'] = r.stdout.strip()
-            for c in checks:
+            mine = checks
+            if not full and len(args) < 2:
+                # the seed's own property, plus every check that detected it when it was evaluated
+                own = name[:3]
+                mine = [own]
+                mpath = os.path.join(VERIF, 'seeded', name, 'meta.json')
+                if os.path.exists(mpath):
+                    meta = json.load(open(mpath))
+                    mine += [c for c, v in meta.get('checks', {}).items() if v.get('verdict') == 'DETECTED' and c != own]
+                    if meta.get('property') and meta['property'] not in mine:
+                        mine.append(meta['property'])
+            for c in mine:
                 t0 = time.time()
                 r = sh('cd %s && VERIF_REPO=%s ./check %s --tier quick' % (VERIF, wt, c))
                 lines = r.stdout.strip().splitlines()
